@@ -28,7 +28,7 @@ def cases(tier, seed):
     out = []
     Ds = [1, 2, 4] if tier == 'quick' else [1, 2, 3, 4, 5, 7, 9]
     Ps = [1, 2] if tier == 'quick' else [1, 2, 3, 5]
-    kinds = ['random', 'integers', 'nonfinite', 'complex', 'signedzero']
+    kinds = ['random', 'integers', 'nonfinite', 'complex', 'signedzero', 'bottom']
     for D in Ds:
         for P in Ps:
             for kind in kinds:
@@ -71,6 +71,10 @@ def _vals(rng, shape, kind):
         f[m < 0.25] = -0.0; f[(m >= 0.25) & (m < 0.4)] = 0.0          # zeros of both signs: conversions move bits, they do not compute
     if kind == 'complex':
         v = v + 1j * rng.normal(size=shape)
+    if kind == 'bottom':
+        # normal numbers just above the smallest one (tiny ... 2 tiny, odd last bits): a + a is exact there, a / 2 is not
+        tiny = np.finfo(float).tiny
+        v = np.sign(v) * tiny * (1.0 + np.abs(rng.integers(1, 2 ** 52, size=shape) | 1) / 2.0 ** 52)
     return v
 
 
@@ -119,6 +123,19 @@ def _piv_utpm(ctx, p, rng):
         d0 = sg.data[0, pp] * np.prod(np.diag(Uu.data[0, pp]))
         if not abs(d0 - np.linalg.det(a[0, pp])) <= 1e-9 * max(1.0, abs(d0)):
             ctx.violation('piv_utpm:det', {'D': D, 'P': P, 'N': N, 'direction': pp, 'got': float(d0), 'want': float(np.linalg.det(a[0, pp]))}); return
+    # the pivots of UTPM.lu_factor (the scipy.linalg.lu_factor convention, returned as a polynomial) convert the same way
+    try:
+        LUf, PIVf = UTPM.lu_factor(UTPM(a.copy()))
+        Wf = UTPM.piv2mat(PIVf); sgf = UTPM.piv2det(PIVf)
+    except Exception as e:
+        ctx.violation('piv_utpm:lu_factor-pivots:raises', {'D': D, 'P': P, 'N': N, 'error': repr(e)[:200]}); return
+    for pp in range(P):
+        import scipy.linalg as _sl
+        piv = _sl.lu_factor(a[0, pp])[1]
+        rows = _perm_from_piv(piv)
+        Pm = np.zeros((N, N)); Pm[rows, np.arange(N)] = 1.0
+        if not np.array_equal(Wf.data[0, pp], Pm) or sgf.data[0, pp] != _parity(rows):
+            ctx.violation('piv_utpm:lu_factor-pivots:value', {'D': D, 'P': P, 'N': N, 'direction': pp}); return
     LU, M1 = lin.cdot(L.data, Uu.data)
     WLU, M2 = lin.cdot(W.data, LU)
     e = lin.res_norm(WLU - a, M2 + np.abs(a))
@@ -178,6 +195,11 @@ def _conv(ctx, p, rng):
             ref[s:] = data[:-s]
         elif -D < s < 0:
             ref[:s] = data[-s:]
+        # the same shift into a buffer of the caller that holds other data, and into the polynomial itself
+        buf = UTPM(np.full(data.shape, 7.5, dtype=data.dtype)); u.shift(s, out=buf)
+        own = UTPM(data.copy()); own.shift(s, out=own)
+        if not (_same(buf.data, ref) and _same(own.data, ref)):
+            ctx.violation('shift:out-buffer', {'D': D, 'P': P, 'shape': shp, 's': s, 'into': 'other buffer' if not _same(buf.data, ref) else 'itself'}); return
         b = a.shift(-s)
         keep = (slice(0, D - s) if s > 0 else slice(-s, D)) if abs(s) < D else slice(0, 0)
         if not (_same(a.data, ref) and _same(b.data[keep], data[keep]) and _same(u.data, data)):
@@ -190,6 +212,8 @@ def _conv(ctx, p, rng):
             raw = {}
             for idx in np.ndindex(*cshape):
                 raw[idx] = _vals(rng, (D, P) + shp, kind)
+                if kind == 'random' and idx == tuple(c - 1 for c in cshape) and cshape != (2,):
+                    raw[idx] = _vals(rng, (D, P) + shp, 'complex')          # elements of different number types: the first real, the last complex
                 elems[idx] = UTPM(raw[idx].copy())
             # the container itself in other memory layouts (logical indexing must win over memory order)
             elemsF = np.asfortranarray(elems)
@@ -219,6 +243,16 @@ def _conv(ctx, p, rng):
                     ctx.violation('%s:elementwise' % fn_name, {'D': D, 'P': P, 'shape': shp, 'container': cshape, 'vals': kind,
                                                                'got_shape': getattr(getattr(y, 'data', None), 'shape', None)}); return
                 ctx.ok(fn_name, (fn_name,) + cls + (cshape,), exact=True)
+    # --- ndarray2utpm: elements of different number types (the first one real, a later one complex): nothing is dropped
+    if shp == () and kind == 'random':
+        ra, rb = _vals(rng, (D, P), 'random'), _vals(rng, (D, P), 'complex')
+        try:
+            y = U.ndarray2utpm([UTPM(ra.copy()), UTPM(rb.copy()), UTPM(ra.copy() * 2)])
+        except Exception as e:
+            ctx.violation('ndarray2utpm:mixed-dtypes:raises', {'D': D, 'P': P, 'error': repr(e)[:200]}); return
+        if not (isinstance(y, UTPM) and _same(y.data[:, :, 0], ra) and _same(y.data[:, :, 1], rb) and _same(y.data[:, :, 2], ra * 2)):
+            ctx.violation('ndarray2utpm:mixed-dtypes:value', {'D': D, 'P': P, 'result_dtype': str(getattr(getattr(y, 'data', None), 'dtype', None))}); return
+        ctx.ok('ndarray2utpm', ('ndarray2utpm', 'mixed-dtypes') + cls, exact=True)
     # --- ndarray2utpm: a container that also holds plain numbers (constants of the program) behind the first polynomial:
     # a number c is the constant polynomial [c, 0, ..., 0] in every direction
     if shp == () and kind in ('random', 'integers'):
@@ -332,6 +366,11 @@ def _sym(ctx, p, rng):
             S = _vals(rng, (n, n), kind); S = np.triu(S) + np.triu(S, 1).T
             w = algopy.symvec(S, uplo)
             ok = _same(w, S[iu]) and _same(algopy.vecsym(w), S)
+            if ok and uplo == 'F' and kind == 'integers':
+                # a non-symmetric integer-typed matrix is symmetrized: the entries (a + b) / 2 are not integers (the docstring's example)
+                Ai = rng.integers(-4, 5, size=(n, n))
+                wi = np.asarray(algopy.symvec(Ai, 'F'), dtype=float)
+                ok = _same(wi, (0.5 * (Ai + Ai.T))[iu])
         else:
             Sd = _vals(rng, (D, P, n, n), kind)
             Sd = np.triu(Sd) + np.triu(Sd, 1).transpose(0, 1, 3, 2)
